@@ -30,7 +30,7 @@ ADVERSARIAL = STR_POOL + ["true", " 7 ", "7 ", "\t7", "1__0", "_1", "1_", "--1",
                           "1677-01-01", "3000-01-01", "1 day", "5min", "P1D", "9223372036854775808",
                           "-9223372036854775809", "18446744073709551615", "18446744073709551616", "255", "256", "-129",
                           "dir0", "part.0.parquet", "k=v"]
-KINDS = [[0, True, 64], [0, True, 8], [0, True, 32], [0, False, 8], [0, False, 64], [1], [2], [3, False], [3, True], [4, True], [4, False], [5]]
+KINDS = [[0, True, 64], [0, True, 8], [0, True, 32], [0, False, 8], [0, False, 64], [1], [2], [3, False], [3, True], [4, True], [4, False], [5], [7]]
 META_OF_KIND = {
     (0, True, 64): {"pandas_type": "int64", "numpy_type": "int64"},
     (0, True, 8): {"pandas_type": "int8", "numpy_type": "int8"},
@@ -44,6 +44,7 @@ META_OF_KIND = {
     (4, True): {"pandas_type": "datetime", "numpy_type": "datetime64[ns]"},
     (4, False): {"pandas_type": "datetime", "numpy_type": "datetime64[us]"},
     (5,): {"pandas_type": "categorical", "numpy_type": "int8"},
+    (7,): {"pandas_type": "datetimetz", "numpy_type": "datetime64[ns, UTC]", "metadata": {"timezone": "UTC"}},
 }
 
 
@@ -51,7 +52,11 @@ def rand_typed_value(rng):
     """(python value as groupby would hand it over, kind letter)"""
     import numpy as np
     import pandas as pd
-    t = rng.choice("iiubfFts")
+    t = rng.choice("iiubfFtsz")
+    if t == "z":
+        base = rng.choice([0, 1577836800, 1577836800 + 3723, 1603587600, 1603591200, 4102444800])     # incl. the repeated hour in Berlin
+        ts = pd.Timestamp(base, unit="s", tz="UTC").tz_convert(rng.choice(["UTC", "Europe/Berlin", "America/New_York", "Asia/Kolkata"]))
+        return ts, "t"
     if t == "i":
         return np.int64(rng.choice([0, 1, -1, 7, -5, 42, 2**31, -2**31, 2**63 - 1, -2**63, rng.randrange(-10**6, 10**6)])), "i"
     if t == "u":
@@ -73,6 +78,8 @@ def rand_typed_value(rng):
 
 
 def run(ctx):
+    import warnings
+    warnings.filterwarnings("ignore", message="no explicit representation of timezones")
     C.coq_lib()
     ctx.trusted = TRUSTED
     ctx.coq_file(os.path.join(C.COQ, "props", "C08.v"))
@@ -129,7 +136,9 @@ def _run(ctx, pq):
         c = L.canon(v)
         m = {"i": {"pandas_type": "int64", "numpy_type": "uint64" if isinstance(v, np.uint64) else "int64"},
              "b": {"pandas_type": "bool", "numpy_type": "bool"}, "f": {"pandas_type": "float64", "numpy_type": "float64"},
-             "t": {"pandas_type": "datetime", "numpy_type": "datetime64[%s]" % (getattr(v, "unit", "ns"))},
+             "t": ({"pandas_type": "datetime", "numpy_type": "datetime64[%s]" % (getattr(v, "unit", "ns"))}
+                   if getattr(v, "tzinfo", None) is None else
+                   {"pandas_type": "datetimetz", "numpy_type": "datetime64[ns, %s]" % v.tz, "metadata": {"timezone": str(v.tz)}}),
              "s": {"pandas_type": "unicode", "numpy_type": "object"}}[c[0]]
         try:
             back = L.canon(util.val_from_meta(util.path_string(v), m))
@@ -151,7 +160,7 @@ def _run(ctx, pq):
             x = util.path_string(v)
         else:
             x = rng.choice(ADVERSARIAL)
-        if kind[0] == 4 and x.strip().lower() in ("now", "today"):
+        if kind[0] in (4, 7) and x.strip().lower() in ("now", "today"):
             x = "2001-02-03"            # np.datetime64("now") is the wall clock: not a function of the text
         texts.append((kind, x))
     table = L.oracle_table([x for _, x in texts])
@@ -198,11 +207,12 @@ def _run(ctx, pq):
             for _ in range(rng.choice([1, 2, 3])):
                 if kd is None or rng.random() < 0.3:
                     pool.append(rng.choice([t for t in ADVERSARIAL if L.legal_text(t, True)
-                                            and not (kd is not None and kd[0] == 4 and t.lower() in ("now", "today"))]))
+                                            and not (kd is not None and kd[0] in (4, 7) and t.lower() in ("now", "today"))]))
                 else:
                     while True:
                         v, k = rand_typed_value(rng)
-                        if {0: "i", 1: "b", 2: "s", 3: "f", 4: "t", 5: "s"}[kd[0]] == k:
+                        if {0: "i", 1: "b", 2: "s", 3: "f", 4: "t", 5: "s", 7: "t"}[kd[0]] == k and \
+                                (k != "t" or (getattr(v, "tzinfo", None) is not None) == (kd[0] == 7)):
                             break
                     t = util.path_string(v)
                     pool.append(t if L.legal_text(t, True) else "z")
@@ -334,8 +344,12 @@ def gen_column(rng, kind, n, drill):
         vals = rng.sample(pool, min(card, len(pool))) + ([None] if nulls else [])
         return pd.Series(pd.array([rng.choice(vals) for _ in range(n)], dtype=rng.choice(["string", "str"])))
     if kind == "timetz":
-        base = pd.to_datetime([rng.choice(["2020-01-01 00:00:00", "2020-06-01 12:30:00", "1999-12-31 23:59:59"]) for _ in range(n)])
-        return pd.Series(base.tz_localize(rng.choice(["UTC", "Europe/Berlin", "America/New_York"])))
+        pool = rng.sample([0, 1577836800, 1577836800 + 3723, 1603587600, 1603591200, 946684799, 4102444800], card)   # incl. Berlin's repeated hour
+        unit = rng.choice(["ns", "us", "ms", "s"])
+        a = np.array([rng.choice(pool) for _ in range(n)], dtype="int64").astype("datetime64[s]").astype("datetime64[%s]" % unit)
+        if nulls and n:
+            a[np.array([rng.random() < 0.25 for _ in range(n)], dtype=bool)] = np.datetime64("NaT")
+        return pd.Series(a).dt.tz_localize("UTC").dt.tz_convert(rng.choice(["UTC", "Europe/Berlin", "America/New_York", "Asia/Kolkata"]))
     if kind == "allnull":
         return pd.Series(np.array([None if (r // 2) % 2 == 0 else "z" for r in range(n)], dtype=object))
     if kind == "catnum":
@@ -352,14 +366,14 @@ def gen_frame_case(rng, confirm, i):
     n = rng.choice([0, 1, 2, 3, 5, 8, 13, 21, 34]) if i % 9 else rng.choice([0, 1])
     n_on = rng.choice([1, 1, 2, 2, 3])
     kinds = [rng.choice(["int", "int", "bool", "float", "time", "str", "strnum" if scheme == "hive" else "str", "cat",
-                         "intx", "boolx", "floatx", "strx"]) for _ in range(n_on)]
+                         "intx", "boolx", "floatx", "strx", "timetz"]) for _ in range(n_on)]
     which = i % 5 if confirm else -1
     if confirm:
         if which == 0:
             scheme, kinds[0] = "hive", "catnum"
         elif which == 1:
             scheme, kinds = "drill", ["strnum"] + kinds[1:]
-        elif which == 4:
+        elif which == 4:        # regression stream of fix for tz-aware partition columns
             scheme, kinds[0] = "hive", "timetz"
         elif which == 2:
             scheme, n_on, kinds = "drill", 2, [rng.choice(["str", "int"]), rng.choice(["bool", "time", "int"])]
@@ -544,6 +558,11 @@ def check_dataset(case, root, pq, ctx=None, verbose=False):
                 if g is None:
                     continue
                 if hive:
+                    if g == want and tz_aware and isinstance(df[c].dtype, pd.DatetimeTZDtype):
+                        gtz = getattr(out[c].iloc[ids.index(rid)], "tz", None)
+                        if str(gtz) != str(df[c].dtype.tz):
+                            problems.append("row %d column %s: time zone read back %s, written %s" % (rid, c, gtz, df[c].dtype.tz))
+                            cls_extra["mismatch"] = "value"
                     if g != want:
                         k = "cat-label-kind" if is_cat[c] and g[0] == "s" and want[0] != "s" else "value"
                         problems.append("row %d column %s: read %r, written %r" % (rid, c, g, want))
